@@ -74,15 +74,15 @@ variable (c : Ctx)
 end cls
 
 /-- the rule context carries the class map `K`, and the heap's glyph ids are below `N` -/
-def PG (N : Nat) (K : Array (List Nat)) (c : Ctx) : Prop := c.classes = K ∧ GidOK N c.seg
+def PGid (N : Nat) (K : Array (List Nat)) (c : Ctx) : Prop := c.classes = K ∧ GidOK N c.seg
 
-theorem die_PG {N : Nat} {K : Array (List Nat)} (c : Ctx) (h : PG N K c) : OutcomeP (PG N K) (Seg.die c) := by
+theorem die_PGid {N : Nat} {K : Array (List Nat)} (c : Ctx) (h : PGid N K c) : OutcomeP (PGid N K) (Seg.die c) := by
   unfold Seg.die; exact ⟨h.1, h.2⟩
 
-theorem next_PG {N : Nat} {K : Array (List Nat)} (c : Ctx) (h : PG N K c) : OutcomeP (PG N K) (opNext c) := by
+theorem next_PGid {N : Nat} {K : Array (List Nat)} (c : Ctx) (h : PGid N K c) : OutcomeP (PGid N K) (opNext c) := by
   unfold opNext
   split
-  · exact die_PG c h
+  · exact die_PGid c h
   · split
     · exact ⟨by simp only [setMap_classes, setIs_classes, markHighpassed_classes]; exact h.1,
         by show GidOK N _; simp only [setMap_seg, setIs_seg, markHighpassed_seg]; exact h.2⟩
@@ -119,13 +119,13 @@ theorem detach_gid {N : Nat} {s : Seg} (h : GidOK N s) (i : Nat) : GidOK N (s.de
   unfold Seg.detach
   exact h.sameT (SameT.tr (unparent_same s i) (detachChildren_same _ _ _))
 
-theorem delete_PG {N : Nat} {K : Array (List Nat)} (c : Ctx) (h : PG N K c) : OutcomeP (PG N K) (opDelete c) := by
+theorem delete_PGid {N : Nat} {K : Array (List Nat)} (c : Ctx) (h : PGid N K c) : OutcomeP (PGid N K) (opDelete c) := by
   unfold opDelete
   split
-  · exact die_PG c h
+  · exact die_PGid c h
   · simp only []
     split
-    · exact die_PG c h
+    · exact die_PGid c h
     · rename_i i _ _
       have h1 : GidOK N (c.seg.upd i fun sl => sl.setDeleted true) := h.2.updKeep _ _ (fun _ => rfl)
       have h2 := (detach_gid (unlink_gid h1 i) i).addGlyphs (-1)
@@ -168,14 +168,14 @@ theorem linkNew_gid {N : Nat} {s : Seg} (h : GidOK N s) (k : Nat) (iss : Option 
   · exact linkAtEnd_gid h k
   · exact linkBefore_gid h k _
 
-theorem insert_PG {N : Nat} {K : Array (List Nat)} (hN : 0 < N) (c : Ctx) (h : PG N K c) : OutcomeP (PG N K) (opInsert c) := by
+theorem insert_PGid {N : Nat} {K : Array (List Nat)} (hN : 0 < N) (c : Ctx) (h : PGid N K c) : OutcomeP (PGid N K) (opInsert c) := by
   unfold opInsert
   simp only []
-  have hc : PG N K (c.setMaxSize (c.maxSize - 1)) := ⟨h.1, h.2⟩
+  have hc : PGid N K (c.setMaxSize (c.maxSize - 1)) := ⟨h.1, h.2⟩
   split
-  · exact die_PG _ hc
+  · exact die_PGid _ hc
   · split
-    · exact die_PG _ hc
+    · exact die_PGid _ hc
     · rename_i k seg heq
       have h1 := newSlot_gid hN h.2 heq
       have h2 := (linkNew_gid h1 k (skipDeleted seg (seg.slots.size + 1) c.is)).addGlyphs 1
@@ -196,21 +196,21 @@ theorem copySlot_gid {N : Nat} {s : Seg} (h : GidOK N s) (i rf : Nat) : GidOK N 
 theorem unmark_gid {N : Nat} {s : Seg} (h : GidOK N s) (i : Nat) : GidOK N (s.unmark i) :=
   h.updKeep _ _ (fun _ => rfl)
 
-theorem slotat_PG {N : Nat} {K : Array (List Nat)} (c : Ctx) (x : Int) (h : PG N K c) : PG N K (slotat c x).2 :=
+theorem slotat_PGid {N : Nat} {K : Array (List Nat)} (c : Ctx) (x : Int) (h : PGid N K c) : PGid N K (slotat c x).2 :=
   ⟨by rw [slotat_classes]; exact h.1, by show GidOK N _; rw [slotat_seg]; exact h.2⟩
 
-theorem putCopy_PG {N : Nat} {K : Array (List Nat)} (c : Ctx) (r : Int) (h : PG N K c) : OutcomeP (PG N K) (opPutCopy c r) := by
+theorem putCopy_PGid {N : Nat} {K : Array (List Nat)} (c : Ctx) (r : Int) (h : PGid N K c) : OutcomeP (PGid N K) (opPutCopy c r) := by
   unfold opPutCopy
   split
   · exact h
   · split
     · exact h
     · simp only []
-      have h' := slotat_PG c r h
+      have h' := slotat_PGid c r h
       split
       · split
         · split
-          · exact die_PG _ h'
+          · exact die_PGid _ h'
           · exact ⟨h'.1, unmark_gid (copySlot_gid h'.2 _ _) _⟩
         · exact ⟨h'.1, unmark_gid h'.2 _⟩
       · exact ⟨h'.1, unmark_gid h'.2 _⟩
@@ -234,18 +234,18 @@ theorem assocFold_frame : ∀ (refs : List Int) (acc : Int × Int × Ctx),
     have h2 := ih (assocStep acc r)
     exact ⟨by rw [List.foldl_cons, h2.1, h1.1], by rw [List.foldl_cons, h2.2, h1.2]⟩
 
-theorem assoc_PG {N : Nat} {K : Array (List Nat)} (c : Ctx) (rs : List Int) (h : PG N K c) : OutcomeP (PG N K) (opAssoc c rs) := by
+theorem assoc_PGid {N : Nat} {K : Array (List Nat)} (c : Ctx) (rs : List Int) (h : PGid N K c) : OutcomeP (PGid N K) (opAssoc c rs) := by
   unfold opAssoc
   simp only []
   have hf := assocFold_frame rs (-1, -1, c)
-  have h' : PG N K (rs.foldl assocStep (-1, -1, c)).2.2 := ⟨by rw [hf.2]; exact h.1, by show GidOK N _; rw [hf.1]; exact h.2⟩
+  have h' : PGid N K (rs.foldl assocStep (-1, -1, c)).2.2 := ⟨by rw [hf.2]; exact h.1, by show GidOK N _; rw [hf.1]; exact h.2⟩
   split
   · split
     · exact ⟨h'.1, h'.2.updKeep _ _ (fun a => by rw [setAfter_gid, setBefore_gid])⟩
     · trivial
   · exact h'
 
-theorem tempCopy_PG {N : Nat} {K : Array (List Nat)} (hN : 0 < N) (c : Ctx) (h : PG N K c) : OutcomeP (PG N K) (opTempCopy c) := by
+theorem tempCopy_PGid {N : Nat} {K : Array (List Nat)} (hN : 0 < N) (c : Ctx) (h : PGid N K c) : OutcomeP (PGid N K) (opTempCopy c) := by
   unfold opTempCopy
   split
   · rename_i k seg i heq _
@@ -253,9 +253,9 @@ theorem tempCopy_PG {N : Nat} {K : Array (List Nat)} (hN : 0 < N) (c : Ctx) (h :
     split
     · exact ⟨h.1, h1.upd _ _ (h1 i)⟩
     · trivial
-  · exact die_PG c h
+  · exact die_PGid c h
 
-theorem attrSet_PG {N : Nat} {K : Array (List Nat)} (c : Ctx) (a b : Nat) (v : Int) (h : PG N K c) : OutcomeP (PG N K) (opAttrSet c a b v) := by
+theorem attrSet_PGid {N : Nat} {K : Array (List Nat)} (c : Ctx) (a b : Nat) (v : Int) (h : PGid N K c) : OutcomeP (PGid N K) (opAttrSet c a b v) := by
   unfold opAttrSet
   split
   · trivial
@@ -273,26 +273,26 @@ theorem attrSet_PG {N : Nat} {K : Array (List Nat)} (c : Ctx) (a b : Nat) (v : I
     · simp only []
       split <;> first | exact ⟨h.1, GidOK.updKeep h.2 _ _ (fun _ => rfl)⟩ | exact h
 
-theorem putGlyph_PG {N : Nat} {K : Array (List Nat)} (hN : 0 < N) (hK : ClassesOK N K) (c : Ctx) (k : Nat) (h : PG N K c) :
-    OutcomeP (PG N K) (opPutGlyph c k) := by
+theorem putGlyph_PGid {N : Nat} {K : Array (List Nat)} (hN : 0 < N) (hK : ClassesOK N K) (c : Ctx) (k : Nat) (h : PGid N K c) :
+    OutcomeP (PGid N K) (opPutGlyph c k) := by
   unfold opPutGlyph
   split
   · exact ⟨h.1, h.2.upd _ _ (classGlyph_lt hN c (by rw [h.1]; exact hK) _ _)⟩
   · trivial
 
-theorem putSubs_PG {N : Nat} {K : Array (List Nat)} (hN : 0 < N) (hK : ClassesOK N K) (c : Ctx) (r : Int) (i o : Nat) (h : PG N K c) :
-    OutcomeP (PG N K) (opPutSubs c r i o) := by
+theorem putSubs_PGid {N : Nat} {K : Array (List Nat)} (hN : 0 < N) (hK : ClassesOK N K) (c : Ctx) (r : Int) (i o : Nat) (h : PGid N K c) :
+    OutcomeP (PGid N K) (opPutSubs c r i o) := by
   unfold opPutSubs
   simp only []
-  have h' := slotat_PG c r h
+  have h' := slotat_PGid c r h
   split
   · split
     · exact ⟨h'.1, h'.2.upd _ _ (classGlyph_lt hN _ (by rw [h'.1]; exact hK) _ _)⟩
     · trivial
   · exact h'
 
-theorem ops_PG {N : Nat} {K : Array (List Nat)} (hN : 0 < N) (hK : ClassesOK N K) : OpsPreserve (PG N K) :=
-  ⟨next_PG, insert_PG hN, delete_PG, putCopy_PG, assoc_PG, tempCopy_PG hN, attrSet_PG, putGlyph_PG hN hK, putSubs_PG hN hK, slotat_PG⟩
+theorem ops_PGid {N : Nat} {K : Array (List Nat)} (hN : 0 < N) (hK : ClassesOK N K) : OpsPreserve (PGid N K) :=
+  ⟨next_PGid, insert_PGid hN, delete_PGid, putCopy_PGid, assoc_PGid, tempCopy_PGid hN, attrSet_PGid, putGlyph_PGid hN hK, putSubs_PGid hN hK, slotat_PGid⟩
 
 theorem freeSlot_gid {N : Nat} (hN : 0 < N) {s : Seg} (h : GidOK N s) (a : Nat) : GidOK N (s.freeSlot a) := by
   unfold Seg.freeSlot
@@ -310,7 +310,7 @@ theorem freeSlot_gid {N : Nat} (hN : 0 < N) {s : Seg} (h : GidOK N s) (a : Nat) 
   unfold Seg.recycle
   exact (h3.upd a _ hN).congr (fun _ => rfl)
 
-theorem gcStep_PG {N : Nat} {K : Array (List Nat)} (hN : 0 < N) (acc : Ctx × Option Nat) (k : Nat) (h : PG N K acc.1) : PG N K (gcStep acc k).1 := by
+theorem gcStep_PGid {N : Nat} {K : Array (List Nat)} (hN : 0 < N) (acc : Ctx × Option Nat) (k : Nat) (h : PGid N K acc.1) : PGid N K (gcStep acc k).1 := by
   unfold gcStep
   split
   · simp only []
@@ -319,18 +319,18 @@ theorem gcStep_PG {N : Nat} {K : Array (List Nat)} (hN : 0 < N) (acc : Ctx × Op
     · exact h
   · exact h
 
-theorem gc_PG {N : Nat} {K : Array (List Nat)} (hN : 0 < N) (c : Ctx) (a : Option Nat) (h : PG N K c) : PG N K (collectGarbage c a).1 := by
+theorem gc_PGid {N : Nat} {K : Array (List Nat)} (hN : 0 < N) (c : Ctx) (a : Option Nat) (h : PGid N K c) : PGid N K (collectGarbage c a).1 := by
   unfold collectGarbage
   generalize (List.range (c.size - 1)) = ks
-  have : ∀ (ks : List Nat) (acc : Ctx × Option Nat), PG N K acc.1 → PG N K (ks.foldl gcStep acc).1 := by
+  have : ∀ (ks : List Nat) (acc : Ctx × Option Nat), PGid N K acc.1 → PGid N K (ks.foldl gcStep acc).1 := by
     intro ks
     induction ks with
     | nil => intro acc h; exact h
-    | cons k rest ih => intro acc h; exact ih _ (gcStep_PG hN acc k h)
+    | cons k rest ih => intro acc h; exact ih _ (gcStep_PGid hN acc k h)
   exact this ks (c, a) h
 
-theorem finishAction_PG {N : Nat} {K : Array (List Nat)} (hN : 0 < N) (s : St) (dl : Bool) (h : PG N K s.ctx)
-    {r : Int} {st : Status} {so : Option Nat} {c : Ctx} (e : finishAction s dl = .ok (r, st, so, c)) : PG N K c := by
+theorem finishAction_PGid {N : Nat} {K : Array (List Nat)} (hN : 0 < N) (s : St) (dl : Bool) (h : PGid N K s.ctx)
+    {r : Int} {st : Status} {so : Option Nat} {c : Ctx} (e : finishAction s dl = .ok (r, st, so, c)) : PGid N K c := by
   unfold finishAction at e
   simp only [] at e
   split at e
@@ -340,22 +340,22 @@ theorem finishAction_PG {N : Nat} {K : Array (List Nat)} (hN : 0 < N) (s : St) (
     · split at e
       · cases e; exact h
       · split at e
-        · cases e; exact gc_PG hN _ _ h
+        · cases e; exact gc_PGid hN _ _ h
         · cases e; exact h
 
 /-- **C03, rule actions.**  Whatever action code a rule runs, and after the garbage collection that follows it, every slot of the heap has
 a glyph id below the glyph count, provided the class map names only real glyphs; the class map itself is not touched. -/
 theorem doAction_gid {N : Nat} {K : Array (List Nat)} (hN : 0 < N) (hK : ClassesOK N K) (is : List Instr) (dl : Bool) (mr : Nat) (data : List Nat) (ctx : Ctx)
-    (h : PG N K ctx) {r : Int} {st : Status} {so : Option Nat} {c : Ctx}
-    (e : doAction is dl mr data ctx = .ok (r, st, so, c)) : PG N K c := by
+    (h : PGid N K ctx) {r : Int} {st : Status} {so : Option Nat} {c : Ctx}
+    (e : doAction is dl mr data ctx = .ok (r, st, so, c)) : PGid N K c := by
   unfold doAction at e
   simp only [] at e
   split at e
   · cases e; exact h
-  · have hr := runLoop_preserves (PG N K) (ops_PG hN hK) is { vm := initVm data, ctx := enterCtx (startCtx ctx) } ⟨h.1, h.2⟩
+  · have hr := runLoop_preserves (PGid N K) (ops_PGid hN hK) is { vm := initVm data, ctx := enterCtx (startCtx ctx) } ⟨h.1, h.2⟩
     split at e
     · cases e
     · rename_i s heq
       rw [heq] at hr
-      exact finishAction_PG hN s dl hr e
+      exact finishAction_PGid hN s dl hr e
 end GrVerif.Action
